@@ -267,6 +267,17 @@ def go_run_driver(pid, pkg, test, overlay, env=None, race=False, timeout=1800, c
         cmd.append("-race")
     cmd.append(pkg)
     rc, o = sh(cmd, cwd=REPO, env=e, timeout=timeout)
+    if rc != 0:  # harness files that no longer compile because identifiers were renamed/moved: rebind them once (docs/notes/REBIND.md)
+        ov2 = rebind_overlay(pid, tag, overlay, o, test)
+        if ov2:
+            cmd[cmd.index("-overlay") + 1] = ov2
+            rc2, o2 = sh(cmd, cwd=REPO, env=e, timeout=timeout)
+            if rc2 == 0:
+                rc, o = rebind_accept(pid, tag, ov2, test)
+            else:
+                o += "\n[rebind: the rebound harness does not compile either]\n" + o2[-1500:]
+    elif REPO == "/repo":
+        bindings_refresh(pid, tag, overlay)
     if rc != 0:
         return rc, "BUILD FAILED\n" + o, obs
     pkgdir = os.path.join(REPO, pkg.replace("./", "", 1))
@@ -275,6 +286,220 @@ def go_run_driver(pid, pkg, test, overlay, env=None, race=False, timeout=1800, c
                cwd=cwd, env=e, timeout=timeout + 30)
     o = "\n".join(l for l in o.splitlines() if not l.startswith("{"))
     return rc, o, obs
+
+
+# --------------------------------------------------------------------------- harness rebinding (docs/notes/REBIND.md)
+#
+# The in-package drivers name unexported identifiers of /repo.  harness/bindings/<pid>_<stream>.json (bin/mkbindings,
+# committed) records what each of them is (kind, owner, signature, structural fingerprint).  When a driver stops compiling
+# against the tree under test, `harness/tools/rebind apply` finds the renamed/moved identifiers, writes renamed COPIES of
+# the harness files under the run's out directory and the driver is compiled once more against those.
+
+BINDINGS = os.path.join(HARNESS, "bindings")
+REBIND_TOOL = os.path.join(HARNESS, "tools", "rebind")
+REF_REPO = os.environ.get("VERIF_REF_REPO", "/repo")   # the tree the committed manifests are generated from
+HARNESS_REBOUND = {}   # pid -> [ {from,to,kind,owner,how,pkg,stream} ]   filled by go_run_driver, read by Report
+HARNESS_PRUNED = {}    # pid -> [ {stream, decl, test, needs} ]
+_rebind_cache = {}
+_rebind_pending = {}
+
+
+def rebind_tool():
+    """the rebind binary (built once per source hash into the shared out/tools)"""
+    h = hashlib.sha256()
+    for n in sorted(os.listdir(REBIND_TOOL)):
+        p = os.path.join(REBIND_TOOL, n)
+        if os.path.isfile(p):
+            h.update(n.encode() + b"\0" + open(p, "rb").read())
+    d = os.path.join(VERIF, "out", "tools")
+    os.makedirs(d, exist_ok=True)
+    binp = os.path.join(d, "rebind-" + h.hexdigest()[:16])
+    if not os.path.exists(binp):
+        tmp = binp + ".tmp%d" % os.getpid()
+        rc, o = sh(["go", "build", "-o", tmp, "."], cwd=REBIND_TOOL, env=GOENV, timeout=600)
+        if rc != 0:
+            log("rebind: the tool does not build:\n" + o[-1500:])
+            return None
+        os.replace(tmp, binp)
+    return binp
+
+
+def _overlay_sources(overlay, repo=None):
+    """(mapping destination-relative-to-the-repo -> source-relative-to-harness, {source: sha256}) of an overlay file, or
+    None when it maps files from outside /verif/harness (generated/instrumented copies: not rebound)"""
+    repo = repo or REPO
+    try:
+        rep = json.load(open(overlay))["Replace"]
+    except (OSError, ValueError, KeyError):
+        return None
+    mp, hs = {}, {}
+    for dest, src in rep.items():
+        if not src.startswith(HARNESS + os.sep) or not dest.startswith(repo.rstrip("/") + "/"):
+            return None
+        rs = os.path.relpath(src, HARNESS)
+        mp[os.path.relpath(dest, repo)] = rs
+        try:
+            hs[rs] = hashlib.sha256(open(src, "rb").read()).hexdigest()
+        except OSError:
+            return None
+    return mp, hs
+
+
+def _pkg_hashes(repo, dirs, skip):
+    out = {}
+    for d in sorted(dirs):
+        h = hashlib.sha256()
+        full = os.path.join(repo, d)
+        for n in sorted(os.listdir(full)) if os.path.isdir(full) else []:
+            if n.endswith(".go") and os.path.join(d, n) not in skip:
+                h.update(n.encode() + b"\0" + open(os.path.join(full, n), "rb").read())
+        out[d] = h.hexdigest()[:24]
+    return out
+
+
+def bindings_path(pid, tag):
+    return os.path.join(BINDINGS, "%s_%s.json" % (pid, tag[:-4] if tag.endswith("_esc") else tag))
+
+
+def find_manifest(pid, tag, mapping):
+    """the committed manifest of this stream: by name, else any manifest of the property with the same overlay"""
+    cands = [bindings_path(pid, tag)] + sorted(glob.glob(os.path.join(BINDINGS, pid + "_*.json")))
+    for p in cands:
+        try:
+            m = json.load(open(p))
+        except (OSError, ValueError):
+            continue
+        if m.get("overlay") == mapping:
+            return p, m
+    return None, None
+
+
+def make_manifest(pid, tag, overlay, out_path, repo=None):
+    """run `rebind manifest` for an overlay (of `repo`), add the bookkeeping, write out_path.  Returns (ok, message)"""
+    repo = repo or REPO
+    tool = rebind_tool()
+    src = _overlay_sources(overlay, repo)
+    if tool is None or src is None:
+        return False, "no rebind tool / overlay has sources outside harness"
+    tmp = out_path + ".tmp%d" % os.getpid()
+    os.makedirs(os.path.dirname(out_path), exist_ok=True)
+    rc, o = sh([tool, "manifest", "-repo", repo, "-overlay", overlay, "-harness", HARNESS, "-o", tmp], cwd=repo, env=GOENV, timeout=600)
+    if rc != 0:
+        return False, o[-1500:]
+    m = json.load(open(tmp))
+    os.remove(tmp)
+    m["property"], m["stream"] = pid, tag
+    m["pkg_source_hashes"] = _pkg_hashes(repo, [p["dir"] for p in m["packages"]], set(src[0]))
+    with open(tmp, "w") as f:
+        json.dump(m, f, indent=1, sort_keys=True)
+        f.write("\n")
+    os.replace(tmp, out_path)
+    return True, "%d packages, %d identifiers" % (len(m["packages"]), sum(len(p["idents"]) for p in m["packages"]))
+
+
+def bindings_refresh(pid, tag, overlay):
+    """after a successful compile against /repo: regenerate the committed manifest when the harness files (or the
+    package sources) are not the ones it was generated from.  A few file hashes when it is fresh."""
+    try:
+        if tag.endswith("_esc"):
+            return
+        src = _overlay_sources(overlay)
+        if src is None:
+            return
+        p, m = find_manifest(pid, tag, src[0])
+        if m is not None and m.get("harness_hashes") == src[1] and \
+           m.get("pkg_source_hashes") == _pkg_hashes(REPO, list(m.get("pkg_source_hashes") or {}), set(src[0])):
+            return
+        ok, msg = make_manifest(pid, tag, overlay, p if (p and m is not None) else bindings_path(pid, tag))
+        log("bindings: manifest of %s/%s regenerated from %s: %s" % (pid, tag, REPO, msg))
+    except Exception as ex:  # never let the bookkeeping break a check
+        log("bindings: refresh failed for %s/%s: %r" % (pid, tag, ex))
+
+
+_HARNESS_ERR = re.compile(r"undefined|has no field or method|unknown field|cannot use|not enough arguments|too many arguments|"
+                          r"does not implement|missing method|mismatched types|invalid operation|not a type|assignment mismatch")
+
+
+def rebind_overlay(pid, tag, overlay, build_output, test=None):
+    """the driver did not compile.  If the errors are in harness files and of the kinds a rename produces, run
+    `rebind apply` and return the overlay that points at the rewritten copies (None: nothing to try)."""
+    try:
+        t0 = time.time()
+        src = _overlay_sources(overlay)
+        if src is None:
+            return None
+        errs = [l for l in build_output.splitlines() if l.startswith(HARNESS + os.sep) and _HARNESS_ERR.search(l)]
+        if not errs:
+            return None
+        key = (json.dumps(src, sort_keys=True), REPO)
+        if key in _rebind_cache:
+            res = _rebind_cache[key]
+        else:
+            tool = rebind_tool()
+            if tool is None:
+                return None
+            mpath, m = find_manifest(pid, tag, src[0])
+            d = os.path.join(OUT, pid, "rebound_" + tag)
+            shutil.rmtree(d, ignore_errors=True)
+            os.makedirs(d, exist_ok=True)
+            if (m is None or m.get("harness_hashes") != src[1]) and REPO != REF_REPO and os.path.isdir(REF_REPO):
+                # no (fresh) committed manifest: generate one from the reference tree, where the harness builds
+                ref_ov = os.path.join(d, "ref_overlay.json")
+                rep = json.load(open(overlay))["Replace"]
+                with open(ref_ov, "w") as f:
+                    json.dump({"Replace": {REF_REPO.rstrip("/") + k[len(REPO.rstrip("/")):]: v for k, v in rep.items()}}, f)
+                ok, msg = make_manifest(pid, tag, ref_ov, os.path.join(d, "manifest.json"), repo=REF_REPO)
+                if ok:
+                    mpath = os.path.join(d, "manifest.json")
+                    m = json.load(open(mpath))
+            if m is None:
+                log("rebind: no manifest for %s/%s (bin/mkbindings)" % (pid, tag))
+                return None
+            rc, o = sh([tool, "apply", "-repo", REPO, "-overlay", overlay, "-manifest", mpath, "-out", d, "-prune"],
+                       cwd=REPO, env=GOENV, timeout=300)
+            if rc != 0:
+                log("rebind: apply failed: " + o[-800:])
+                return None
+            res = json.load(open(os.path.join(d, "report.json")))
+            res["_manifest"] = mpath
+            _rebind_cache[key] = res
+            log("rebind %s/%s (%.1fs): %s" % (pid, tag, time.time() - t0, " | ".join(o.strip().splitlines()) or "nothing to rebind"))
+        if not res.get("overlay") or not (res.get("rebound") or res.get("pruned")):
+            return None
+        _rebind_pending[(pid, tag)] = res
+        return res["overlay"]
+    except Exception as ex:
+        log("rebind: failed for %s/%s: %r" % (pid, tag, ex))
+        return None
+
+
+def rebind_accept(pid, tag, ov2, test=None):
+    """the rebound harness compiles: record what was rebound / pruned.  Returns (rc, output) for go_run_driver: a driver
+    whose own Test function had to be pruned counts as not building."""
+    res = _rebind_pending.pop((pid, tag), None) or {}
+    for r in res.get("rebound") or []:
+        if r.get("indirect") and not r.get("sites"):
+            continue
+        rec = {k: r.get(k) for k in ("from", "to", "kind", "owner", "how", "score", "pkg")}
+        if rec not in [dict((k, x.get(k)) for k in rec) for x in HARNESS_REBOUND.get(pid, [])]:
+            HARNESS_REBOUND.setdefault(pid, []).append(dict(rec, stream=tag))
+    gone = [p for p in res.get("pruned") or [] if p.get("test") and p.get("decl") == test]
+    for p in res.get("pruned") or []:
+        rec = {"decl": p.get("decl"), "test": bool(p.get("test")), "needs": p.get("needs"), "file": p.get("file")}
+        if rec not in [dict((k, x.get(k)) for k in rec) for x in HARNESS_PRUNED.get(pid, [])]:
+            HARNESS_PRUNED.setdefault(pid, []).append(dict(rec, stream=tag if p.get("decl") == test else None))
+    if gone:
+        return 3, "[rebind: the driver %s depends on identifiers the package no longer has (%s); the other drivers of the file were kept]" % (
+            test, "; ".join(gone[0].get("needs") or []))
+    return 0, ""
+
+
+def stream_pruned(pid, test):
+    """the pruning record of a stream whose Test function had to be taken out of the harness file (or None)"""
+    for p in HARNESS_PRUNED.get(pid, []):
+        if p.get("test") and p.get("decl") == test:
+            return p
+    return None
 
 
 def read_obs(path):
@@ -333,6 +558,8 @@ class Report:
         content.setdefault("property", self.pid)
         content.setdefault("seed", self.seed)
         content.setdefault("tier", self.tier)
+        if HARNESS_REBOUND.get(self.pid):  # the binding is heuristic: a verdict reached through it says so
+            content.setdefault("harness_rebound", HARNESS_REBOUND[self.pid])
         with open(p, "w") as f:
             json.dump(content, f, indent=1, default=str)
         return p
@@ -354,6 +581,14 @@ class Report:
             "findings_not_reproduced": self.not_reproduced,
             "notes": self.notes,
         })
+        if HARNESS_REBOUND.get(self.pid):
+            cov["harness_rebound"] = HARNESS_REBOUND[self.pid]
+            for r in HARNESS_REBOUND[self.pid]:
+                line = "harness rebound: %s %s%s -> %s (%s, %s)" % (r["kind"], (r.get("owner") + ".") if r.get("owner") else "", r["from"], r["to"], r["pkg"], r["how"])
+                cov["notes"] = cov["notes"] + [line]
+                print("NOTE: " + line)
+        if HARNESS_PRUNED.get(self.pid):
+            cov["harness_pruned"] = HARNESS_PRUNED[self.pid]
         ev = {
             "property_id": self.pid, "tier": self.tier, "seed": self.seed, "level": self.level,
             "coverage": cov, "assumptions": assumptions,
